@@ -106,6 +106,18 @@ CHECKS = {
              "parameters, uses a 16-byte aligned alloca block and calls out to native code.",
         note="Trusted: gcc as the C ABI; rbp/rsp integrity is implied by the caller continuing to run and print correctly.",
         design="3/C06"),
+    "C07": dict(
+        technique=TECH + "differential execution of generated UB-free C programs: c2m (ASan/UBSan/assert build) on every engine vs gcc, with a second gcc "
+                         "build (-O2 -fsanitize=undefined) as a guard that the program is well defined",
+        text="Generated programs exercise integer promotions and usual arithmetic conversions between every pair of types, mixed signed/unsigned "
+             "comparisons, casts incl. _Bool, shifts, guarded division, ?:, &&, ||, comma, compound assignment, bit-field reads/writes and static "
+             "initialisers, struct copies, loops, switch with constant-expression labels, recursion-free calls with mixed parameter types; every "
+             "constant expression is used both where it is folded at compile time (static initialiser, enum value, array size, case label) and "
+             "at run time; sizeof of mixed-type expressions exposes the result types. Output and exit status must equal gcc's on -ei, -eg -O0/-O2/-O3, "
+             "-el, -eb.",
+        note="Trusted: gcc as the reference; type-based aliasing rules are respected by construction (c2mir uses them). Calls between the two "
+             "compilers' code are covered by C05/C06/C08.",
+        design="3/C07"),
     "C08": dict(
         technique=TECH + "differential execution against the platform compiler: layout probes (sizeof/_Alignof/offsetof/bit-field byte images) and "
                          "by-value passing between c2m-compiled and gcc-compiled code in both directions; c2m is the ASan/UBSan/assert build",
